@@ -949,12 +949,17 @@ class System:
             eff, warn, vsi, iso, vso, isi = [], [], [], [], [], []
             domain, phases, ener, dname, group, rail = [], [], [], "none", [], []
             sources, dwarns, rail_in, pstate = {}, {}, [], {}
+            ndomain = {}
             show_trise = False
             for n in self._topo_nodes:  # [vi, vo, ii, io]
                 phase_config = self._phase_lkup[n]
                 name = self._g[n]._params["name"]
                 names += [name]
-                dname = self._find_domain(n, dname, v)
+                if self._g[n]._component_type.name in ("SOURCE", "PMUX"):
+                    dname = self._find_domain(n, dname, v)
+                else:
+                    dname = ndomain[self._parents[n][0]]
+                ndomain[n] = dname
                 domain += [dname]
                 phases += [ph]
                 group += [self._g.attrs["groups"][name]]
